@@ -272,7 +272,7 @@ func (ex *Exec) defaultTerm(key string, b *Base) string {
 			// stored values exist
 			ex.preAssume = append(ex.preAssume, "(forall ((k!w Str)) (! (and (<= 0 (select "+t+" k!w)) (<= (select "+t+" k!w) top!0)) :pattern ((select "+t+" k!w))))")
 		}
-		if key == "X|isOpen" {
+		if key == "X|isOpen" || key == "X|osOpen" {
 			// typestate well-formedness: an object that is not allocated yet is not an open handle
 			ex.preAssume = append(ex.preAssume, "(forall ((r!w Int)) (! (=> (> r!w top!0) (not (select "+t+" r!w))) :pattern ((select "+t+" r!w))))")
 		}
